@@ -642,6 +642,10 @@ class Interp:
             if name in o.fields:
                 v = o.fields[name]
                 if isinstance(v, Undefined):
+                    if getattr(v, 'leftover', None):
+                        self.err(node, f'depends on state left by an earlier call: field {name} of a long-used '
+                                       f'{o.cls.__name__} (assigned by {v.leftover}) is read before this call has '
+                                       f'written it - the result is not a function of the arguments and the configuration')
                     self.err(node, f'read of havocked-away field {name}')
                 yield v, st
                 return
